@@ -29,9 +29,9 @@ class Push(Opcode):
                         address = add(address, 4, 32)
                 if bit_at(self.registers, 15):
                     if self.unaligned_allowed:
-                        processor.mem_u_set(address, 4, processor.registers.pc_store_value())
+                        processor.mem_u_set(address, 4, processor.registers.get_pc())
                     else:
-                        processor.mem_a_set(address, 4, processor.registers.pc_store_value())
+                        processor.mem_a_set(address, 4, processor.registers.get_pc())
                 processor.registers.set_sp(sub(
                     processor.registers.get_sp(), 4 * bit_count(self.registers, 1, 32), 32
                 ))
